@@ -100,6 +100,11 @@ def cases(shard, nshards, seed, tier):
                    {"kind": "T1", "ops": [{"op": "rigid", "seed": f"{fn}:ens1", "trans": [10.0, 20.0, -30.0]}]}):
             if mine():
                 yield {"family": "ensemble-models-first", "file": fn, "base_ops": [], "twin": tw, "pre_models": list(range(10, 1, -1))}
+    # format twins with gap detection on: missing residues (author numbers jump while the mmCIF label index does not)
+    for fn in [f for f in files if f.endswith(("1E7K_1_C.cif", "1ehz-assembly-1.cif", "1A1T_1_B.cif", "4qln.cif", "488d.pdb"))]:
+        for t in range(2 if tier == "quick" else 8):
+            if mine():
+                yield {"family": "T4-format-gap-detection", "file": fn, "base_ops": [{"op": "thin-res", "seed": f"{seed}:{fn}:gap{t}", "frac": 0.12}] if t else [], "twin": {"kind": "T4", "gaps": True}}
     # hostile identities / orders under every twin kind
     hostile_bases = [[{"op": "icodes", "seed": "c05h1", "frac": 0.7}], [{"op": "chain-order", "seed": "c05h2", "mode": "reverse"}], [{"op": "reverse-res"}],
                      [{"op": "renumber", "first": -9}], [{"op": "renumber", "first": -998}]]
